@@ -4,27 +4,49 @@ breezy/bzr/pack_repo.py: PackCommitBuilder._heads, _VersionedFileChecker /
 _do_generate_text_key_index, breezy/bzr/check.py).
 
 T2: generated history scripts (edit / chmod / rename / move / delete / re-add an
-id / file<->symlink / commit / branch / merge (also criss-cross and of an
-ancestor) / add a pending parent without merging content / revert a file after
-the merge / resurrect an old version / identical parallel edits from a small
-content pool) are interpreted by real working trees of several branches in one
-shared repository (`WorkingTree.commit`, `merge_from_branch`, `revert`,
-`add_parent_tree_id`).  The working-tree state captured *before* every commit is
-the model's input; compared with the Lean model `build`: the last-changed
-revision of every (revision, file id) (`RevisionTree.get_file_revision`), the
-stored per-file parents of every text key (`texts.get_parent_map`), and the
-verdict of `Repository.check()`.  `heads` (the specification of vcsgraph's
-`Graph.heads`) is compared with the real per-file graph object on random key
-subsets; linear scripts are also compared with `linLast`.
+id / file<->symlink / commit / branch / merge (also criss-cross, octopus, staircase
+octopus and of an ancestor) / add a pending parent without merging content / GHOST
+pending parents and a ghost basis / revert a file after the merge / resurrect an
+old version / identical parallel edits from a small content pool / exactly one
+attribute (directory with the same basename, basename, exec bit, content, kind)
+changed while a merge is pending) are interpreted by real working trees of several
+branches in one shared repository (`WorkingTree.commit`, `merge_from_branch`,
+`revert`, `add_parent_tree_id`).  The working-tree state captured *before* every
+commit is the model's input; compared with the Lean model:
+ * `rec`  (`build`): the last-changed revision of every (revision, file id)
+   (`RevisionTree.get_file_revision`), the stored per-file parents of every text
+   key (`texts.get_parent_map`), and the verdict of `Repository.check()`;
+ * `recb` (`buildB`, the literal merged_ids / parent_entries / changes /
+   unchanged_merged bookkeeping): the same outputs, the model being given the list
+   of file ids the REAL `iter_changes` handed to `record_iter_changes` (teed, the
+   method runs unchanged); the reply must also say `R:T`, i.e. the hypothesis of
+   `bookkeeping_refines` ("reported iff the attributes differ from the basis
+   entry's") held for every entry of every commit;
+ * `chk` (checker model on an INCONSISTENT repository): one hand-made revision is
+   inserted on top of the finished history through Repository.add_inventory /
+   add_revision / texts.add_lines with per-file parents that are wrong in one of
+   7 ways (dropped, extra ancestor, other version, swapped order, stale ancestor,
+   all candidates, unreferenced text) or right (control); the keys, stored and
+   expected parents `Repository.check()` reports are compared with `expIndex` /
+   `wrongParents` / `unreferenced` run on the real inventories and stored text
+   parents, and with an independent expectation (exactly the inserted key);
+ * `heads` (the specification of vcsgraph's `Graph.heads`) is compared with the
+   real per-file graph object on random key subsets; linear scripts with `linLast`.
+Non-rich-root formats (pack-0.92, knit): the root is left out of the model input
+and outputs; the oracle checks that it always names the revision itself and is
+never a text key.
 
 Oracle (no model involved): stored per-file parents == heads (own ancestry walk
-over the real text graph) of the versions in the revision's parents, in parent
-order; the last-changed revision is an ancestor-or-self whose recorded
-attributes are identical; it is the new revision iff there is not exactly one
-per-file head with identical attributes (and, for a single parent: iff the
-attributes differ from the parent's); a text key exists iff the revision is the
-last-changed one; `check()` reports no inconsistent parents / unreferenced
-versions; the committed attributes equal the captured working-tree state.
+over the real text graph) of the versions in the revision's parents (ghosts
+contribute nothing), in parent order, and each is a revision ancestor; the
+last-changed revision is an ancestor-or-self whose recorded attributes (directory,
+name, kind, exec, content) are identical; it is the new revision iff there is not
+exactly one per-file head with identical attributes (and, for a single parent: iff
+the attributes differ from the parent's); a carried-over revision includes (per
+file and per revision graph) the version of every parent; a text key exists iff
+the revision is the last-changed one; `check()` reports no inconsistent parents /
+unreferenced versions; the committed attributes equal the captured working-tree
+state.
 
 Mutants this was built against (scratch worktree, never /repo):
  M1 record_iter_changes: carry-over test ignores the executable bit
@@ -40,19 +62,36 @@ Mutants this was built against (scratch worktree, never /repo):
     dropped)                                                            -> caught
  M7 _do_generate_text_key_index sorts expected parents by revision id instead of
     candidate order                                                     -> caught (check() verdict)
- M8 carry-over test ignores parent_id (`parent_entry.parent_id != entry_parent_id` dropped) -> caught
+ M8 carry-over test ignores parent_id (`parent_entry.parent_id != entry_parent_id` dropped;
+    = seeded change seed-C02b)  -> caught for seeds 0..3 by the oracle (family "one attribute
+    changed while a merge is pending": moved to the other directory with the same basename)
  M9 symlink carry-over ignores the target                                -> caught
  R1 fix abcfbf0 reverted (VersionedFileCommitBuilder._heads on the revision graph again)   -> caught: plain
     VIOLATION on corpus/C02/knit-readded-id.json (oracle + check() verdict)
+ M10 merged_ids without the basis revision (`basis_entry.revision,` dropped)            -> caught (oracle)
+ M11 parent_entries of a third parent not recorded (`parent_entries[..][..] = change[3]` dropped in
+    the else branch)  -> caught (oracle; needs the staircase octopus family: the single per-file head
+    comes from the third parent)
+ M12 _check_file_version_parents compares parent *sets* (order ignored)  -> caught only by the checker
+    tie (swap_order corruption; check() on consistent histories is unaffected)
+ M13 _check_file_version_parents: unused_keys always empty               -> caught only by the checker tie
+ M14 non-rich-root guard dropped (root text stored in pack-0.92)         -> caught (oracle)
+ M15 ghost truncation in _do_generate_text_key_index wipes the candidates seen so far -> caught
+    (check() reports inconsistent parents on a ghost history)
+ M16 ghost slow path of record_iter_changes inserts the present parents' trees in reverse order
+    -> caught on 3 of 4 seeds (needs >= 2 present parents + a ghost and an asymmetric change)
  H1 harmless: heads preserved-order loop rewritten as a list comprehension,
     `set(head_candidates)` -> `frozenset(...)`                          -> clean
+ H2 harmless: `merged_ids.get(f, head_candidate)` -> conditional expression -> clean
 
 Former finding `revgraph-heads-readded-file-id` (knit formats took the heads in the *revision*
 graph; a file id removed, re-added and merged with a branch still holding the old version got
 per-file parents that check() reports as inconsistent): fixed in /repo abcfbf0.  Its input is kept
 as corpus/C02/knit-readded-id.json and expects the fixed behaviour; reverting the fix gives a plain
 VIOLATION with that input (mutant R1).
-A crash inside merge_from_branch (tree transform, e.g. NoFinalPath) is counted and skipped.
+A crash inside merge_from_branch (tree transform, e.g. NoFinalPath) is counted and skipped.  A
+failure of the hand-made insertion of the checker tie is counted (infrastructure); more than 10 %
+such failures abort the run with an exception (exit 2), never a VIOLATION.
 """
 import hashlib
 import os
@@ -63,25 +102,39 @@ THEOREMS = [
     "perfile_parents_are_heads", "perfile_parents_antichain", "perfile_parents_from_parents",
     "lastchanged_sound", "lastchanged_fresh", "text_key_iff_fresh", "inventory_records_tree",
     "linear_characterisation", "check_passes",
+    "revision_ancestry_strict", "fanc_sub_ranc", "perfile_parents_are_ancestors", "perfile_ancestry_strict",
+    "lastchanged_single_parent", "lastchanged_carried_dominates",
+    "bookkeeping_refines", "bookkeeping_refines_history", "perfile_independence",
 ]
-RULE = ("case = (format, history script); scripts are random op lists over <=3 branches, 5 file ids "
-        "(root, a directory, 3 files/symlinks), <=10 commits; non-trivial = the history contains a "
-        "commit with >=2 parents or a carried-over entry whose last-changed revision is not the basis's")
+RULE = ("case = (format, history script); scripts are random op lists over <=3 branches (+ helper branches "
+        "for criss-cross), quick: 5 file ids (root, a directory, 3 files/symlinks) and <=10 commits, thorough: "
+        "8 file ids and <=20 commits; families (counted per history as family:*): merge, octopus, staircase "
+        "octopus, criss-cross, merge of an ancestor, pending parent without content merge, ghost parent / ghost "
+        "basis, revert after merge, revive, re-add of an id, kind change, identical parallel change, one "
+        "attribute changed while a merge is pending; non-trivial = the history contains a commit with >=2 "
+        "parents or a carried-over entry whose last-changed revision is not the basis's")
 ASSUMPTIONS = [
     "revision ids, file ids, names, sha1s and symlink targets are compared only for equality (numbered by the harness)",
-    "rich-root formats (2a, rich-root-pack, rich-root): the root directory is an ordinary text key",
-    "no ghost parents in the generated histories (theorem hypothesis `hist`: parents are present)",
+    "rich-root formats (2a, rich-root-pack, rich-root, 1.9-rich-root): the root directory is an ordinary text key; "
+    "non-rich-root formats (pack-0.92, knit): the root is outside the model (oracle: names the revision itself, no text key)",
+    "ghost parents stay ghosts (theorem hypothesis `hist`: a commit's id is not named as a parent earlier); "
+    "filling a ghost later (fetch) is outside the property's quantifier",
+    "iter_changes reports a file id iff its attributes differ from the basis entry's (hypothesis of "
+    "bookkeeping_refines; checked on every real commit: the `recb` reply must say R:T)",
 ]
 TRUSTED = [
     "vcsgraph Graph.heads / KnownGraph (external, compiled): Model `heads` is its specification, compared on every per-file graph built",
     "inventory serialisation, CHK maps, group-compress/knit text storage, dirstate iter_changes are exercised, not modelled",
+    "tsort.topo_sort of check(): the model processes revisions in commit order (a topological order)",
 ]
 
-FORMATS_QUICK = ("2a", "rich-root-pack")
-FORMATS_ALL = ("2a", "rich-root-pack", "rich-root", "1.9-rich-root")
+FORMATS_QUICK = ("2a", "rich-root-pack", "pack-0.92")
+FORMATS_ALL = ("2a", "rich-root-pack", "rich-root", "1.9-rich-root", "pack-0.92", "knit")
 
-FIDS = [b"TREE_ROOT", b"dir-id", b"file-a", b"file-b", b"file-c"]   # numbered 1..5; 0 = no parent
-NAMES = ["", "d", "x", "y", "z", "w"]
+# numbered 1..8; 0 = no parent.  quick uses the first 5, thorough all 8
+FIDS = [b"TREE_ROOT", b"dir-id", b"file-a", b"file-b", b"file-c", b"file-d", b"file-e", b"file-f"]
+NAMES = ["", "d", "x", "y", "z", "w", "v", "u", "t"]
+GHOST_BASE = 900            # ghost-k is revision number 900 + k
 CONTENTS = [b"c0\n", b"c1\nline\n", b"c2\n", b""]
 TARGETS = ["t0", "t1"]
 
@@ -90,35 +143,39 @@ TARGETS = ["t0", "t1"]
 # script generation
 # --------------------------------------------------------------------------
 
-def _edit_op(rng, b):
+def _edit_op(rng, b, nf=5):
     r = rng.random()
-    fi = rng.randrange(1, 5)
+    fi = rng.randrange(1, nf)
+    nn = len(NAMES)
     if r < 0.42:
-        return ["edit", b, rng.randrange(2, 5), rng.randrange(4)]
+        return ["edit", b, rng.randrange(2, nf), rng.randrange(4)]
     if r < 0.50:
-        return ["chmod", b, rng.randrange(2, 5)]
+        return ["chmod", b, rng.randrange(2, nf)]
     if r < 0.62:
-        return ["mv", b, fi, rng.randrange(2, 6), rng.random() < 0.4]
+        return ["mv", b, fi, rng.randrange(2, nn), rng.random() < 0.4]
     if r < 0.68:
         return ["rm", b, fi]
     if r < 0.77:
-        return ["add", b, fi, rng.randrange(2, 6), "d" if fi == 1 else rng.choice("ffl"),
+        return ["add", b, fi, rng.randrange(2, nn), "d" if fi == 1 else rng.choice("ffl"),
                 rng.randrange(4), fi != 1 and rng.random() < 0.3]
     if r < 0.86:
-        return ["kind", b, rng.randrange(2, 5)]
+        return ["kind", b, rng.randrange(2, nf)]
     if r < 0.92:
         return ["revert", b, fi]
     return ["revive", b, fi, rng.randrange(1, 4)]
 
 
-def gen_script(rng, linear=False, max_commits=8):
-    """history script: an initial commit on b0, early branching, then rounds of
-    (a few tree edits | identical edit on two branches) followed by commit or by
-    merge(s) + post-merge tweaks + commit"""
+def gen_script(rng, linear=False, max_commits=8, nf=5, ghosts=True):
+    """history script: an initial commit on b0 (sometimes on a ghost basis), early branching,
+    then rounds of (a few tree edits | identical edit on two branches | octopus | criss-cross
+    | remove + re-add an id + merge) followed by commit or by merge(s) / pending (also ghost)
+    parents + post-merge tweaks + commit.  nf = number of file ids including the root."""
     ops = []
     branches = ["b0"]
-    for fi in (1, 2, 3, 4):
-        if rng.random() < 0.9:
+    if ghosts and rng.random() < 0.12:
+        ops.append(["ghostbasis", "b0", rng.randrange(1, 4)])
+    for fi in range(1, nf):
+        if rng.random() < (0.9 if fi < 5 else 0.6):
             ops.append(["add", "b0", fi, fi + 1, "d" if fi == 1 else rng.choice("fffl"),
                         rng.randrange(4), fi != 1 and rng.random() < 0.3])
     ops.append(["commit", "b0"])
@@ -134,10 +191,10 @@ def gen_script(rng, linear=False, max_commits=8):
         r = rng.random()
         if len(branches) == 3 and r > 0.9 and ncommits + 4 <= max_commits + 2:
             # octopus: the same file changed on all three branches, merged with three parents
-            fi = rng.randrange(2, 5)
+            fi = rng.randrange(2, nf)
             for x in branches:
                 ops.append(rng.choice([["edit", x, fi, rng.randrange(4)], ["chmod", x, fi],
-                                       ["mv", x, fi, rng.randrange(2, 6), False]]))
+                                       ["mv", x, fi, rng.randrange(2, len(NAMES)), False]]))
                 ops.append(["commit", x])
             others = [x for x in branches if x != b]
             rng.shuffle(others)
@@ -148,40 +205,115 @@ def gen_script(rng, linear=False, max_commits=8):
             ops.append(["commit", b])
             ncommits += 4
             continue
+        if len(branches) == 3 and 0.82 < r <= 0.9 and ncommits + 4 <= max_commits + 2:
+            # staircase octopus: x changes a file, y merges x and changes it again, then b merges
+            # both at once: a single per-file head that comes from the second or third parent
+            x, y = [z for z in branches if z != b]
+            if rng.random() < 0.5:
+                x, y = y, x
+            fi = rng.randrange(2, nf)
+            ops += [["edit", x, fi, rng.randrange(4)], ["commit", x],
+                    ["merge", y, x], rng.choice([["edit", y, fi, rng.randrange(4)], ["chmod", y, fi],
+                                                 ["mv", y, fi, rng.randrange(2, len(NAMES)), False]]),
+                    ["commit", y]]
+            # x moves on in another file, so that its tip is not an ancestor of y's (the working
+            # tree drops pending parents that are ancestors of other parents)
+            fj = rng.choice([z for z in range(2, nf) if z != fi])
+            ops += [["edit", x, fj, rng.randrange(4)], ["chmod", x, fj], ["commit", x]]
+            for src in ((x, y) if rng.random() < 0.6 else (y, x)):
+                ops.append(["merge", b, src])
+            if rng.random() < 0.3:
+                ops.append(rng.choice([["edit", b, fi, rng.randrange(4)], ["chmod", b, fi]]))
+            ops.append(["commit", b])
+            ncommits += 4
+            continue
         if not linear and r < 0.12:
             # identical parallel change (cherry-pick by content)
             o = rng.choice([x for x in branches if x != b])
-            fi, c = rng.randrange(2, 5), rng.randrange(4)
+            fi, c = rng.randrange(2, nf), rng.randrange(4)
             ops += [["edit", b, fi, c], ["commit", b], ["edit", o, fi, c], ["commit", o]]
             ncommits += 2
             continue
+        if not linear and 0.12 <= r < 0.20 and ncommits + 4 <= max_commits + 2:
+            # criss-cross: both branches change a file, each merges the other's *previous* tip
+            o = rng.choice([x for x in branches if x != b])
+            fi = rng.randrange(2, nf)
+            tmp = "t%d" % ncommits
+            second = ["edit", o, fi, rng.randrange(4)] if rng.random() < 0.6 else ["chmod", o, fi]
+            ops += [["edit", b, fi, rng.randrange(4)], ["commit", b], second, ["commit", o],
+                    ["branch", o, tmp],                          # keeps o's tip before the merge
+                    ["merge", o, b], ["commit", o],
+                    ["merge", b, tmp], ["commit", b]]
+            if rng.random() < 0.6:
+                # merge across the criss-cross (two least common ancestors)
+                ops += [["merge", b, o],
+                        ["revert", b, fi] if rng.random() < 0.4 else ["edit", b, fi, rng.randrange(4)],
+                        ["commit", b]]
+                ncommits += 1
+            ncommits += 4
+            continue
+        if not linear and 0.26 <= r < 0.42 and ncommits + 3 <= max_commits + 2:
+            # one-sided change + merge + exactly ONE attribute of that file changed while the merge
+            # is pending (parent directory with the same basename | basename in the same directory
+            # | exec bit | content | kind | nothing): the carry-over test must look at each of them
+            o = rng.choice([x for x in branches if x != b])
+            fi = rng.randrange(2, nf)
+            fj = rng.choice([z for z in range(2, nf) if z != fi])
+            who, other = (o, b) if rng.random() < 0.6 else (b, o)
+            ops += [rng.choice([["edit", who, fi, rng.randrange(4)], ["chmod", who, fi]]), ["commit", who],
+                    ["edit", other, fj, rng.randrange(4)], ["chmod", other, fj], ["commit", other],
+                    ["add", b, 1, 1, "d", 0, False],           # make sure there is a directory to move into
+                    ["merge", b, o]]
+            tweak = rng.choice([["mvdir", b, fi], ["mvdir", b, fi], ["rename", b, fi, rng.randrange(2, len(NAMES))],
+                                ["chmod", b, fi], ["edit", b, fi, rng.randrange(4)], ["kind", b, fi], None])
+            if tweak:
+                ops.append(tweak)
+            ops.append(["commit", b])
+            ncommits += 3
+            continue
+        if not linear and 0.20 <= r < 0.26:
+            # remove an id, commit, add it again (new per-file root), then merge a branch that
+            # still holds the old version
+            o = rng.choice([x for x in branches if x != b])
+            fi = rng.randrange(2, nf)
+            ops += [["rm", b, fi], ["commit", b],
+                    ["add", b, fi, rng.randrange(2, len(NAMES)), rng.choice("ffl"), rng.randrange(4), False],
+                    ["commit", b], ["merge", b, o], ["commit", b]]
+            ncommits += 3
+            continue
         for _ in range(rng.choice((1, 1, 2, 2, 3))):
-            ops.append(_edit_op(rng, b))
-        if linear or rng.random() < 0.55:
+            ops.append(_edit_op(rng, b, nf))
+        if linear or rng.random() < 0.5:
+            if ghosts and not linear and rng.random() < 0.1:
+                ops.append(["ghost", b, rng.randrange(1, 4)])
             ops.append(["commit", b])
             ncommits += 1
             continue
         others = [x for x in branches if x != b]
         rng.shuffle(others)
         nmerge = 2 if (len(others) > 1 and rng.random() < 0.4) else 1
+        if ghosts and rng.random() < 0.12:
+            ops.append(["ghost", b, rng.randrange(1, 4)])       # ghost as second parent
         for src in others[:nmerge]:
             ops.append(["merge" if rng.random() < 0.8 else "addparent", b, src])
+        if ghosts and rng.random() < 0.08:
+            ops.append(["ghost", b, rng.randrange(1, 4)])       # ghost as last parent
         # post-merge tweaks: the carry-over test must notice every attribute
         for _ in range(rng.choice((0, 1, 1, 2))):
             k = rng.random()
-            fi = rng.randrange(2, 5)
+            fi = rng.randrange(2, nf)
             if k < 0.25:
-                ops.append(["revert", b, rng.randrange(1, 5)])
+                ops.append(["revert", b, rng.randrange(1, nf)])
             elif k < 0.40:
                 ops.append(["edit", b, fi, rng.randrange(4)])
             elif k < 0.55:
                 ops.append(["chmod", b, fi])
             elif k < 0.75:
-                ops.append(["mv", b, fi, rng.randrange(2, 6), rng.random() < 0.5])
+                ops.append(["mv", b, fi, rng.randrange(2, len(NAMES)), rng.random() < 0.5])
             elif k < 0.85:
                 ops.append(["kind", b, fi])
             else:
-                ops.append(_edit_op(rng, b))
+                ops.append(_edit_op(rng, b, nf))
         ops.append(["commit", b])
         ncommits += 1
     return ops
@@ -191,9 +323,33 @@ def gen_script(rng, linear=False, max_commits=8):
 # the real side
 # --------------------------------------------------------------------------
 
+_REPORTED = []      # file ids of the changes the last record_iter_changes call was given
+
+
+def _install_capture():
+    """tee the iter_changes iterator that commit hands to record_iter_changes (the hypothesis
+    of the bookkeeping theorem is about exactly this list); the real method runs unchanged"""
+    from breezy.bzr.vf_repository import VersionedFileCommitBuilder
+    if getattr(VersionedFileCommitBuilder, "_c02_capture", False):
+        return
+    orig = VersionedFileCommitBuilder.record_iter_changes
+
+    def record_iter_changes(self, tree, basis_revision_id, iter_changes):
+        items = list(iter_changes)
+        _REPORTED[:] = [c.file_id for c in items]
+        return orig(self, tree, basis_revision_id, iter(items))
+
+    VersionedFileCommitBuilder.record_iter_changes = record_iter_changes
+    VersionedFileCommitBuilder._c02_capture = True
+
+
 class World:
     def __init__(self, fmt):
         from breezy.controldir import ControlDir, format_registry
+        _install_capture()
+        self.fmt_name = fmt
+        self.tags = {}        # branch -> set of family tags of the commit being prepared
+        self.ever = {}        # branch -> file ids that were versioned there at some commit
         self.fmt = format_registry.make_controldir(fmt)
         self.base = env.fresh_dir("c02")
         ControlDir.create(self.base, format=self.fmt).create_repository(shared=True)
@@ -202,7 +358,7 @@ class World:
         wt = br.controldir.open_workingtree()
         wt.set_root_id(FIDS[0])
         self.wts = {"b0": wt}
-        self.commits = []     # (revno-number, revid, snapshot)
+        self.commits = []     # (number, revid, working tree parents, snapshot, reported ids, tags)
         self.skipped = 0
         self.applied = 0
         self.merge_crashes = []
@@ -265,6 +421,25 @@ class World:
             self.skipped += 1
         else:
             self.applied += 1
+            t = self.tags.setdefault(op[1], set())
+            if kind == "merge":
+                t.add("merge")
+            elif kind == "addparent":
+                t.add("pending_parent_without_content_merge")
+            elif kind in ("ghost", "ghostbasis"):
+                t.add("ghost_parent")
+            elif kind == "revert" and "merge" in t:
+                t.add("revert_after_merge")
+            elif kind == "revive":
+                t.add("revive_old_version")
+            elif kind == "kind":
+                t.add("kind_change")
+            elif kind in ("mvdir", "rename", "mv", "chmod", "edit") and "merge" in t:
+                t.add("%s_while_merge_pending" % {"mv": "move"}.get(kind, kind))
+            elif kind == "add" and op[2] in self.ever.get(op[1], ()):
+                t.add("readd_file_id")
+            elif kind == "branch":
+                self.ever[op[2]] = set(self.ever.get(op[1], ()))
 
     def op_add(self, wt, fi, ni, kind, content, in_dir):
         if self._path(wt, fi) is not None:
@@ -315,6 +490,28 @@ class World:
             if dp is None or wt.kind(dp) != "directory":
                 return False
             rel = dp + "/" + name
+        if rel == p or not self._free(wt, rel):
+            return False
+        wt.rename_one(p, rel)
+
+    def op_mvdir(self, wt, fi):
+        """move to the other directory (top level <-> the directory id) keeping the basename"""
+        p = self._path(wt, fi)
+        dp = self._path(wt, 1)
+        if p is None or fi == 1 or dp is None or wt.kind(dp) != "directory":
+            return False
+        base = p.rsplit("/", 1)[-1]
+        rel = base if "/" in p else dp + "/" + base
+        if not self._free(wt, rel):
+            return False
+        wt.rename_one(p, rel)
+
+    def op_rename(self, wt, fi, ni):
+        """new basename in the same directory"""
+        p = self._path(wt, fi)
+        if p is None or fi == 1:
+            return False
+        rel = (p.rsplit("/", 1)[0] + "/" if "/" in p else "") + NAMES[ni]
         if rel == p or not self._free(wt, rel):
             return False
         wt.rename_one(p, rel)
@@ -375,9 +572,15 @@ class World:
 
     def _lefthand(self, wt):
         repo = wt.branch.repository
+        out = []
         with repo.lock_read():
             g = repo.get_graph()
-            return list(reversed(list(g.iter_lefthand_ancestry(wt.branch.last_revision(), [b"null:"]))))
+            try:
+                for r in g.iter_lefthand_ancestry(wt.branch.last_revision(), [b"null:"]):
+                    out.append(r)
+            except Exception:        # ran into a ghost: the lefthand history ends there
+                pass
+        return list(reversed(out))
 
     def _settle(self, wt):
         """drop conflicts and any file that names a versioned id but is missing on disk"""
@@ -423,27 +626,53 @@ class World:
             return False
         wt.add_parent_tree_id(tip)
 
+    def op_ghost(self, wt, k):
+        """a pending parent that is not in the repository"""
+        gid = b"ghost-%d" % k
+        ps = wt.get_parent_ids()
+        if not ps or gid in ps or len(ps) > 2:
+            return False
+        wt.add_parent_tree_id(gid)
+
+    def op_ghostbasis(self, wt, k):
+        """the very first commit is made on top of a ghost (ghost_basis in record_iter_changes)"""
+        if wt.get_parent_ids() or self.commits:
+            return False
+        wt.set_parent_ids([b"ghost-%d" % k], allow_leftmost_as_ghost=True)
+
     def op_commit(self, wt):
         self._settle(wt)
         snap = self.snapshot(wt)
         n = len(self.commits) + 1
         rid = b"r%03d" % n
         parents = list(wt.get_parent_ids())
+        del _REPORTED[:]
         wt.commit("c%d" % n, rev_id=rid)
-        self.commits.append((n, rid, parents, snap))
+        reported = sorted({FIDS.index(f) + 1 for f in _REPORTED if f in FIDS})
+        bname = next(k for k, v in self.wts.items() if v is wt)
+        tags = sorted(self.tags.pop(bname, ()))
+        self.ever.setdefault(bname, set()).update(k - 1 for k in snap)
+        self.commits.append((n, rid, parents, snap, reported, tags))
+
+
+def _num_map(world):
+    num = {rid: n for n, rid, *_ in world.commits}
+    for k in range(1, 10):
+        num[b"ghost-%d" % k] = GHOST_BASE + k
+    return num
 
 
 def observe(world):
     """everything the comparison needs, as plain data"""
     wt = world.wts["b0"]
     repo = wt.branch.repository
-    num = {rid: n for n, rid, _, _ in world.commits}
+    num = _num_map(world)
     from breezy.bzr.vf_repository import VersionedFileCommitBuilder
-    out = dict(commits=[], texts={}, extra_texts=[], check=None,
+    out = dict(commits=[], texts={}, extra_texts=[], check=None, rich=bool(repo.supports_rich_root()),
                revgraph_heads=(repo._commit_builder_class._heads is VersionedFileCommitBuilder._heads))
     with repo.lock_read():
-        pm = repo.get_parent_map([rid for _, rid, _, _ in world.commits])
-        for n, rid, wparents, snap in world.commits:
+        pm = repo.get_parent_map([rid for _, rid, *_ in world.commits])
+        for n, rid, wparents, snap, reported, tags in world.commits:
             tree = repo.revision_tree(rid)
             inv = {}
             attrs = {}
@@ -464,7 +693,8 @@ def observe(world):
                                        wparents=[num[p] for p in wparents],
                                        snap={str(k): list(v) for k, v in snap.items()},
                                        inv={str(k): v for k, v in inv.items()},
-                                       attrs={str(k): list(v) for k, v in attrs.items()}))
+                                       attrs={str(k): list(v) for k, v in attrs.items()},
+                                       reported=reported, tags=tags))
         keys = sorted(repo.texts.keys())
         tpm = repo.texts.get_parent_map(keys)
         for k in keys:
@@ -480,11 +710,164 @@ def observe(world):
         out["_fg"] = fg
         out["_repo"] = repo
         res = repo.check()
-        out["check"] = dict(inconsistent=[[num[a], FIDS.index(b) + 1, [num[x] for x in c], [num[x] for x in d]]
-                                          for a, b, c, d in res.inconsistent_parents],
-                            unreferenced=sorted("%d.%d" % (FIDS.index(k[0]) + 1, num[k[1]])
-                                                for k in res.unreferenced_versions))
+        out["check"] = _check_result(res, num)
     return out
+
+
+def _check_result(res, num):
+    return dict(inconsistent=sorted([num[a], FIDS.index(b) + 1, [num[x] for x in c], [num[x] for x in d]]
+                                    for a, b, c, d in res.inconsistent_parents),
+                unreferenced=sorted("%d.%d" % (FIDS.index(k[0]) + 1, num[k[1]])
+                                    for k in res.unreferenced_versions))
+
+
+# --------------------------------------------------------------------------
+# the checker on an INCONSISTENT repository
+# --------------------------------------------------------------------------
+
+CORRUPTIONS = ("control", "drop_parents", "extra_ancestor", "other_version", "swap_order",
+               "stale_ancestor", "unreferenced_text", "all_candidates")
+
+
+def corrupt_and_check(world, obs, rng_seed):
+    """Insert ONE hand-made revision X on top of the finished history, directly through
+    Repository.add_inventory / add_revision / texts.add_lines (no commit builder): a copy of a tip
+    inventory in which one file id gets a new version whose stored per-file parents are wrong in a
+    chosen way (or, as control, right).  Then run the real Repository.check() and describe the
+    whole repository (real inventories' last-changed revisions, real stored text parents) for the
+    Lean checker model.  Returns None when no corruption is applicable."""
+    import random
+    from breezy.osutils import sha_strings
+    from breezy.revision import Revision
+    from bzrformats.inventory import Inventory, InventoryDirectory, InventoryFile, InventoryLink
+    rng = random.Random(rng_seed)
+    repo = world.wts["b0"].branch.repository
+    num = _num_map(world)
+    rev_of = {n: rid for n, rid, *_ in world.commits}
+    commits = {c["n"]: c for c in obs["commits"]}
+    tips = sorted({num[w.branch.last_revision()] for w in world.wts.values()
+                   if w.branch.last_revision() in num})
+    if not tips:
+        return None
+    rich = obs["rich"]
+    tg = {}
+    for k, ps in obs["texts"].items():
+        a, b = map(int, k.split("."))
+        tg[(a, b)] = [(a, p) for p in ps]
+    memo = {}
+
+    def options(parents, f):
+        """the corruptions that apply to file id f of a revision X with these parents"""
+        fi = int(f)
+        cands = []
+        for p in parents:
+            v = commits[p]["inv"].get(f)
+            if v is not None and v not in cands:
+                cands.append(v)
+        # what a correct commit would store: heads (own walk on the real graph) of the parents' versions
+        good = [h for h in cands if not any(o != h and (fi, h) in _anc(tg, (fi, o), memo) for o in cands)]
+        versions = sorted(b for (a, b) in tg if a == fi)
+        anc_of_good = sorted({b for h in good for (_, b) in _anc(tg, (fi, h), memo)})
+        out = {"control": good, "unreferenced_text": good}
+        if good:
+            out["drop_parents"] = good[:-1]
+        if anc_of_good:
+            out["extra_ancestor"] = good + [rng.choice(anc_of_good)]
+            out["stale_ancestor"] = [rng.choice(anc_of_good)]
+        other = [v for v in versions if v not in good]
+        if other:
+            out["other_version"] = [rng.choice(other)]
+        if len(good) >= 2:
+            out["swap_order"] = list(reversed(good))
+        if cands != good:
+            out["all_candidates"] = list(cands)
+        return good, out
+
+    combos = []
+    for t1 in tips:
+        for t2 in [None] + [t for t in tips if t != t1]:
+            parents = [t1] + ([t2] if t2 is not None else [])
+            for f in sorted(commits[t1]["inv"], key=int):
+                if f == "1":
+                    continue
+                good, out = options(parents, f)
+                for kind, stored in out.items():
+                    combos.append((kind, parents, int(f), good, stored))
+    if not combos:
+        return None
+    kinds = sorted({c[0] for c in combos})
+    # the rare corruptions first, so that every kind is exercised on most runs
+    rare = [k for k in ("swap_order", "all_candidates", "extra_ancestor", "stale_ancestor") if k in kinds]
+    kind = rng.choice(rare) if rare and rng.random() < 0.6 else rng.choice(kinds)
+    kind, parents, fi, good, stored = rng.choice([c for c in combos if c[0] == kind])
+    t1 = parents[0]
+    new_entry = kind != "unreferenced_text"
+    pl = None
+    x = len(world.commits) + 1
+    X = b"x%03d" % x
+    num[X] = x
+    lines = [b"inserted by the checker tie\n"]
+    with repo.lock_write():
+        src = repo.revision_tree(rev_of[t1]).root_inventory
+        inv = Inventory(root_id=None, revision_id=X)
+        for _path, e in src.iter_entries_by_dir():
+            if new_entry and e.file_id == FIDS[fi - 1]:
+                if e.kind == "file":
+                    e = InventoryFile(e.file_id, e.name, e.parent_id, revision=X, executable=e.executable,
+                                      text_size=len(b"".join(lines)), text_sha1=sha_strings(lines))
+                elif e.kind == "symlink":
+                    e = InventoryLink(e.file_id, e.name, e.parent_id, revision=X, symlink_target="corrupt")
+                else:
+                    e = InventoryDirectory(e.file_id, e.name, e.parent_id, revision=X)
+            elif e.parent_id is None and not rich:
+                e = InventoryDirectory(e.file_id, e.name, e.parent_id, revision=X)
+            inv.add(e)
+        kindof = src.get_entry(FIDS[fi - 1]).kind
+        repo.start_write_group()
+        try:
+            repo.texts.add_lines((FIDS[fi - 1], X), tuple((FIDS[fi - 1], rev_of[p]) for p in stored),
+                                 lines if kindof == "file" else [])
+            sha = repo.add_inventory(X, inv, [rev_of[p] for p in parents])
+            repo.add_revision(X, Revision(X, parent_ids=[rev_of[p] for p in parents], committer="x <x@example.com>",
+                                          timestamp=0.0, timezone=0, message="inserted",
+                                          inventory_sha1=sha, properties={}))
+            repo.commit_write_group()
+        except BaseException:
+            repo.abort_write_group()
+            raise
+    with repo.lock_read():
+        res = _check_result(repo.check(), num)
+        # describe the repository for the model: real inventories and real stored text parents
+        keys = sorted(repo.texts.keys())
+        tpm = repo.texts.get_parent_map(keys)
+        by_rev = {}
+        for k in keys:
+            by_rev.setdefault(num[k[1]], []).append((FIDS.index(k[0]) + 1, [num[p[1]] for p in tpm[k]]))
+        recs = []
+        for n in sorted(commits):
+            c = commits[n]
+            recs.append((n, c["parents"], {int(a): b for a, b in c["inv"].items()}))
+        xinv = {}
+        xt = repo.revision_tree(X)
+        with xt.lock_read():
+            for path, ie in xt.iter_entries_by_dir():
+                xinv[FIDS.index(ie.file_id) + 1] = num[xt.get_file_revision(path)]
+        recs.append((x, parents, xinv))
+    parts = []
+    for n, ps, inv_ in recs:
+        items = sorted((a, b) for a, b in inv_.items() if rich or a != 1)
+        ts = sorted(by_rev.get(n, []))
+        parts.append("%d;%s;%s;%s" % (
+            n, ",".join(map(str, ps)) or "-",
+            ",".join("%d=%d" % it for it in items) or "-",
+            ",".join("%d=%s" % (a, ".".join(map(str, ps_)) or "-") for a, ps_ in ts) or "-"))
+    line = "chk " + "|".join(parts)
+    w = ",".join("%d.%d=%s>%s" % (fid_, r, ".".join(map(str, st)) or "-", ".".join(map(str, ex)) or "-")
+                 for r, fid_, st, ex in sorted(res["inconsistent"], key=lambda t: (t[1], t[0])))
+    u = ",".join(sorted(res["unreferenced"], key=lambda k: tuple(map(int, k.split(".")))))
+    impl = "W:%s U:%s" % (w or "-", u or "-")
+    return dict(kind=kind, f=fi, x=x, parents=parents, stored=stored, good=good, line=line, impl=impl,
+                new_entry=new_entry)
 
 
 def heads_queries(rng_seed, obs):
@@ -527,6 +910,11 @@ def _worker(item):
         w = run_script(fmt, ops)
         obs = observe(w)
         obs["heads"] = heads_queries(seed * 7919 + idx, obs)
+        try:
+            obs["chk"] = corrupt_and_check(w, obs, seed * 104729 + idx)
+        except Exception as e:
+            import traceback
+            obs["chk"] = dict(error=repr(e), tb=traceback.format_exc()[-1200:])
         obs["applied"] = w.applied
         obs["skipped"] = w.skipped
         obs["merge_crashes"] = w.merge_crashes
@@ -552,24 +940,34 @@ class Numbering:
 
 
 def model_line(obs, op="rec"):
+    """`rec` / `lin`: the captured working-tree states; `recb`: the same with, per entry, whether the
+    real iter_changes reported the id.  Non-rich-root formats: the root is left out (not a text key,
+    its inventory revision is always the revision itself — checked by the oracle)."""
     nb = Numbering()
+    rich = obs.get("rich", True)
     cs = []
     for c in obs["commits"]:
         ents = []
         for f in sorted(c["snap"], key=int):
+            if f == "1" and not rich:
+                continue
             k, par, name, exe, content = c["snap"][f]
             kn = {"f": 0, "l": 1, "d": 2}[k]
             cn = 0 if k == "d" else nb.num(k, content)
-            ents.append("%s.%d.%d.%d.%d.%d" % (f, kn, par, nb.num("n", name), 1 if exe else 0, cn))
+            e = "%s.%d.%d.%d.%d.%d" % (f, kn, par, nb.num("n", name), 1 if exe else 0, cn)
+            if op == "recb":
+                e += ".%d" % (1 if int(f) in c["reported"] else 0)
+            ents.append(e)
         cs.append("%d;%s;%s" % (c["n"], ",".join(map(str, c["wparents"])) or "-", "/".join(ents) or "-"))
     return "%s %s" % (op, "|".join(cs))
 
 
-def impl_reply(obs):
+def impl_reply(obs, op="rec"):
     invs = []
     texts = []
+    rich = obs.get("rich", True)
     for c in obs["commits"]:
-        fs = sorted(c["inv"], key=int)
+        fs = [f for f in sorted(c["inv"], key=int) if rich or f != "1"]
         invs.append("%d;%s" % (c["n"], ",".join("%s=%d" % (f, c["inv"][f]) for f in fs) or "-"))
         for f in fs:
             if c["inv"][f] == c["n"]:
@@ -578,13 +976,15 @@ def impl_reply(obs):
                 texts.append("%s=%s" % (k, "MISSING" if ps is None else (".".join(map(str, ps)) or "-")))
     chk = obs["check"]
     ok = not chk["inconsistent"] and not chk["unreferenced"]
-    return "H:T %s %s %s" % ("|".join(invs), ",".join(texts) or "-",
-                             "ok" if ok else "wrong:%d:%d:0" % (len(chk["inconsistent"]), len(chk["unreferenced"])))
+    return "H:T %s%s %s %s" % ("R:T " if op == "recb" else "", "|".join(invs), ",".join(texts) or "-",
+                               "ok" if ok else "wrong:%d:%d:0" % (len(chk["inconsistent"]), len(chk["unreferenced"])))
 
 
 def impl_lin(obs):
     c = obs["commits"][-1]
-    return "T " + (",".join("%s=%d" % (f, c["inv"][f]) for f in sorted(c["inv"], key=int)) or "-")
+    rich = obs.get("rich", True)
+    return "T " + (",".join("%s=%d" % (f, c["inv"][f]) for f in sorted(c["inv"], key=int)
+                            if rich or f != "1") or "-")
 
 
 # --------------------------------------------------------------------------
@@ -606,9 +1006,10 @@ def oracle(ctx, case, obs):
     """returns [(message, family)].  No finding family is classified any more: the former
     `revgraph-heads-readded-file-id` defect (knit formats took heads in the revision graph) was
     fixed in /repo abcfbf0 and is a plain violation if it returns (corpus/C02/knit-readded-id.json
-    is the regression input)."""
+    is the regression input).  A ghost parent (number >= GHOST_BASE) contributes no versions."""
     bad = []
     commits = {c["n"]: c for c in obs["commits"]}
+    rich = obs.get("rich", True)
     rpm = {n: c["parents"] for n, c in commits.items()}
     rmemo = {}
     tg = {}
@@ -617,12 +1018,13 @@ def oracle(ctx, case, obs):
         tg[(f, r)] = [(f, p) for p in ps]
     tmemo = {}
     fam_at = {}
+    empty = dict(inv={}, attrs={})
 
     def cands_heads(c, f):
         fi = int(f)
         cands = []
         for p in c["parents"]:
-            pr = commits[p]["inv"].get(f)
+            pr = commits.get(p, empty)["inv"].get(f)
             if pr is not None and pr not in cands:
                 cands.append(pr)
         hs = [h for h in cands
@@ -641,8 +1043,21 @@ def oracle(ctx, case, obs):
         if c["attrs"] != c["snap"]:
             bad.append(("r%d: committed attributes differ from the working tree state: %r vs %r" % (
                 n, c["attrs"], c["snap"]), None))
+        basis = commits.get(c["parents"][0], empty) if c["parents"] else empty
         for f, lr in c["inv"].items():
             a = c["attrs"][f]
+            if f == "1" and not rich:
+                # non-rich-root formats: the root is not a text key and always names the revision
+                if lr != n:
+                    bad.append(("r%d: non-rich-root root entry names r%d" % (n, lr), None))
+                if "1.%d" % n in obs["texts"]:
+                    bad.append(("r%d: non-rich-root format stored a root text" % n, None))
+                continue
+            # the hypothesis of the bookkeeping theorem, on the real iter_changes
+            rep = int(f) in c["reported"]
+            dif = basis["attrs"].get(f) != a
+            if rep != dif:
+                obs["_report_mismatch"] = obs.get("_report_mismatch", 0) + 1
             # soundness
             if lr != n and lr not in _anc(rpm, n, rmemo):
                 bad.append(("r%d file %s: last-changed r%d is not an ancestor" % (n, f, lr), None))
@@ -658,8 +1073,15 @@ def oracle(ctx, case, obs):
                 bad.append(("r%d file %s: last-changed r%d but heads of parents' versions %r (candidates %r), "
                             "attributes %s the head's" % (n, f, lr, hs, cands,
                                                           "equal" if carry else "differ from"), fam))
+            if lr != n:
+                # dominance: every parent's version is the named one or a per-file AND revision ancestor
+                for v in cands:
+                    if v != lr and ((int(f), v) not in _anc(tg, (int(f), lr), tmemo)
+                                    or v not in _anc(rpm, lr, rmemo)):
+                        bad.append(("r%d file %s: carried-over last-changed r%d does not include the "
+                                    "version r%d of a parent" % (n, f, lr, v), fam))
             if len(c["parents"]) == 1:
-                pa = commits[c["parents"][0]]["attrs"].get(f)
+                pa = commits.get(c["parents"][0], empty)["attrs"].get(f)
                 if (lr == n) != (pa != a):
                     bad.append(("r%d file %s (single parent): changed=%r but last-changed r%d" % (
                         n, f, pa != a, lr), None))
@@ -672,6 +1094,9 @@ def oracle(ctx, case, obs):
                 elif obs["texts"][key] != hs:
                     bad.append(("r%d file %s: stored per-file parents %r, heads of the parents' versions %r "
                                 "(candidates %r)" % (n, f, obs["texts"][key], hs, cands), fam))
+                elif any(p not in _anc(rpm, n, rmemo) for p in hs):
+                    bad.append(("r%d file %s: a stored per-file parent of %r is not a revision ancestor" % (
+                        n, f, hs), fam))
             elif key in obs["texts"]:
                 bad.append(("r%d file %s: text key stored although the entry names r%d" % (n, f, lr), None))
     for k in obs["texts"]:
@@ -689,25 +1114,80 @@ def oracle(ctx, case, obs):
     return bad
 
 
+def chk_expected(chk):
+    """independent expectation for the verdict of check() on the repository with the inserted
+    revision: exactly the inserted text key is reported, with the stored and the right parents"""
+    key = "%d.%d" % (chk["f"], chk["x"])
+    fmt = lambda l: ".".join(map(str, l)) or "-"
+    if not chk["new_entry"]:
+        return "W:- U:%s" % key
+    if chk["stored"] == chk["good"]:
+        return "W:- U:-"
+    return "W:%s=%s>%s U:-" % (key, fmt(chk["stored"]), fmt(chk["good"]))
+
+
 # --------------------------------------------------------------------------
 # run / replay
 # --------------------------------------------------------------------------
 
+def _lcas(rpm, memo, p, q):
+    ap = _anc(rpm, p, memo) | {p}
+    aq = _anc(rpm, q, memo) | {q}
+    common = ap & aq
+    return [x for x in common if not any(y != x and x in _anc(rpm, y, memo) for y in common)]
+
+
 def _stats(ctx, obs):
+    """distribution counters; per history family (counted once per history that exhibits it)"""
+    commits = {c["n"]: c for c in obs["commits"]}
+    rpm = {n: c["parents"] for n, c in commits.items()}
+    memo = {}
     merges = sum(1 for c in obs["commits"] if len(c["parents"]) >= 2)
     tri = sum(1 for c in obs["commits"] if len(c["parents"]) >= 3)
     carried_other = 0
     multi = 0
+    fams = set()
     for c in obs["commits"]:
-        binv = None
-        if c["parents"]:
-            binv = next(x for x in obs["commits"] if x["n"] == c["parents"][0])["inv"]
+        fams.update(c.get("tags", ()))
+        ps = c["parents"]
+        real = [p for p in ps if p < GHOST_BASE]
+        if len(ps) != len(real):
+            fams.add("ghost_parent")
+            if ps and ps[0] >= GHOST_BASE:
+                fams.add("ghost_basis")
+        if len(ps) >= 3:
+            fams.add("octopus")
+        if len(real) >= 2 and any(len(_lcas(rpm, memo, p, q)) >= 2
+                                  for i, p in enumerate(real) for q in real[i + 1:]):
+            fams.add("criss_cross_merge")
+        if len(real) >= 2 and any(q in _anc(rpm, p, memo) for p in real for q in real if p != q):
+            fams.add("merge_of_an_ancestor")
+        binv = battr = None
+        if ps:
+            b = commits.get(ps[0])
+            binv = b["inv"] if b else {}
+            battr = b["attrs"] if b else {}
         for f, lr in c["inv"].items():
             if lr != c["n"] and binv is not None and binv.get(f) != lr:
                 carried_other += 1
-            if lr == c["n"] and len(obs["texts"].get("%s.%d" % (f, lr), [])) >= 2:
+                fams.add("carried_from_non_basis_parent")
+                if len(real) >= 3:
+                    fams.add("octopus_carried_from_later_parent")
+            nps = len(obs["texts"].get("%s.%d" % (f, lr), [])) if lr == c["n"] else 0
+            if nps >= 2:
                 multi += 1
+                if battr is not None and battr.get(f) == c["attrs"][f]:
+                    fams.add("merge_recorded_without_change_vs_basis")   # unchanged_merged
+                hs = obs["texts"]["%s.%d" % (f, lr)]
+                if len({tuple(commits[h]["attrs"].get(f, ())) for h in hs if h in commits}) == 1:
+                    fams.add("identical_parallel_change_merged")
+            if lr == c["n"] and len(ps) >= 2 and nps == 1 and int(f) not in c.get("reported", []):
+                fams.add("unreported_id_gets_new_version")
+    for fam in sorted(fams):
+        ctx.count("family:" + fam)
     ctx.count("commits", len(obs["commits"]))
+    ctx.count("commits_per_history:%s" % ("<=5" if len(commits) <= 5 else "<=10" if len(commits) <= 10
+                                          else "<=15" if len(commits) <= 15 else ">15"))
     ctx.count("merge_commits", merges)
     ctx.count("three_parent_commits", tri)
     ctx.count("entries_carried_from_non_basis", carried_other)
@@ -716,9 +1196,20 @@ def _stats(ctx, obs):
     return merges > 0 or carried_other > 0
 
 
-def run(ctx, n=None):
+def gen_items(ctx, n, start=0):
     fmts = ctx.pick(FORMATS_QUICK, FORMATS_ALL)
-    n = n or ctx.pick(60, 500)
+    nf = ctx.pick(5, 8)
+    limits = ctx.pick((5, 8, 10), (8, 12, 20))
+    items = []
+    for i in range(n):
+        linear = ctx.rng.random() < 0.15
+        ops = gen_script(ctx.rng, linear=linear, max_commits=ctx.rng.choice(limits), nf=nf)
+        items.append((start + i, fmts[i % len(fmts)], ops, ctx.seed))
+    return items
+
+
+def run(ctx, n=None):
+    n = n or ctx.pick(60, 240)
     items = []
     corpus_dir = os.path.join(env.VERIF, "corpus", "C02")
     if os.path.isdir(corpus_dir):
@@ -726,14 +1217,12 @@ def run(ctx, n=None):
         for fn in sorted(os.listdir(corpus_dir)):
             c = json.load(open(os.path.join(corpus_dir, fn)))
             items.append((len(items), c["fmt"], c["ops"], ctx.seed))
-    for i in range(n):
-        linear = ctx.rng.random() < 0.2
-        ops = gen_script(ctx.rng, linear=linear, max_commits=ctx.rng.choice((5, 8, 10)))
-        fmt = fmts[i % len(fmts)]
-        items.append((len(items), fmt, ops, ctx.seed))
+    items += gen_items(ctx, n, start=len(items))
     results = ctx.pmap(_worker, items, chunksize=1)
     cases, lines, impls = [], [], []
     hq_cases, hq_lines, hq_impls = [], [], []
+    bk_cases, bk_lines, bk_impls = [], [], []
+    ck_cases, ck_lines, ck_impls = [], [], []
     for (idx, fmt, ops, _), obs in zip(items, results):
         case = dict(fmt=fmt, ops=ops)
         if "error" in obs:
@@ -751,11 +1240,16 @@ def run(ctx, n=None):
         oracle(ctx, case, obs)
         if obs.get("_revgraph_differs"):
             ctx.count("histories_where_revision_graph_heads_differ_from_per_file_heads")
+        if obs.get("_report_mismatch"):
+            ctx.count("entries_where_iter_changes_report_is_not_iff_differs", obs["_report_mismatch"])
         cases.append(case)
         lines.append(model_line(obs))
         impls.append(impl_reply(obs))
+        bk_cases.append(dict(case, op="recb"))
+        bk_lines.append(model_line(obs, "recb"))
+        bk_impls.append(impl_reply(obs, "recb"))
         if all(len(c["parents"]) <= 1 for c in obs["commits"]) and \
-                all(c["parents"] == [c["n"] - 1] for c in obs["commits"][1:]):
+                all(c["parents"] == [c["n"] - 1] for c in obs["commits"][1:]) and not obs["commits"][0]["parents"]:
             ctx.count("linear_histories")
             cases.append(dict(case, op="lin"))
             lines.append(model_line(obs, "lin"))
@@ -767,9 +1261,32 @@ def run(ctx, n=None):
                 ",".join(map(str, q["cands"]))))
             hq_impls.append(",".join(map(str, q["heads"])) or "-")
             ctx.count("heads_queries")
+        chk = obs.get("chk")
+        if chk is None:
+            ctx.count("checker_tie:not_applicable")
+        elif "error" in chk:
+            # the hand-made insertion could not be performed: infrastructure, not the property
+            ctx.count("checker_tie:insertion_failed")
+            ctx.extra.setdefault("checker_tie_insertion_errors", []).append(chk["error"])
+        else:
+            ctx.count("checker_tie:" + chk["kind"])
+            ctx.count("checker_tie_verdict:" + ("consistent" if chk["impl"] == "W:- U:-" else "reported"))
+            ccase = dict(case, op="chk", idx=idx, seed=ctx.seed, corruption=chk["kind"], f=chk["f"], stored=chk["stored"],
+                         right=chk["good"], parents=chk["parents"])
+            if chk["impl"] != chk_expected(chk):
+                # check() on a repository that IS inconsistent: a wrong verdict is a tie break of
+                # the checker model's independent expectation, reported like a model mismatch
+                ctx.mismatch(ccase, chk["impl"], chk_expected(chk), line=chk["line"], tie="T2-checker-expected")
+            ck_cases.append(ccase)
+            ck_lines.append(chk["line"])
+            ck_impls.append(chk["impl"])
+    if len(ctx.extra.get("checker_tie_insertion_errors", [])) > max(3, len(items) // 10):
+        raise RuntimeError("checker tie: too many failed insertions: %r" % ctx.extra["checker_tie_insertion_errors"][:3])
     if ctx.model_available:
         ctx.diff(cases, lines, impls)
+        ctx.diff(bk_cases, bk_lines, bk_impls, tie="T2-bookkeeping")
         ctx.diff(hq_cases, hq_lines, hq_impls, tie="T2-heads")
+        ctx.diff(ck_cases, ck_lines, ck_impls, tie="T2-checker")
 
 
 def widen(ctx):
@@ -777,13 +1294,24 @@ def widen(ctx):
 
 
 def replay(ctx, case):
-    obs = _worker((0, case["fmt"], case["ops"], 0))
+    obs = _worker((case.get("idx", 0), case["fmt"], case["ops"], case.get("seed", 0)))
     if "error" in obs:
         return dict(case=case, error=obs["error"], tb=obs["tb"])
     bad = oracle(ctx, case, obs)
-    line = model_line(obs)
+    op = case.get("op", "rec")
+    chk = obs.get("chk") or {}
+    if op == "chk" and "line" in chk:
+        line, impl = chk["line"], chk["impl"]
+    elif op == "lin":
+        line, impl = model_line(obs, "lin"), impl_lin(obs)
+    else:
+        op = op if op in ("rec", "recb") else "rec"
+        line, impl = model_line(obs, op), impl_reply(obs, op)
     m = ctx.model([line])[0] if ctx.model_available else None
-    return dict(case=case, impl=impl_reply(obs), model=m, line=line,
+    return dict(case=case, impl=impl, model=m, line=line,
                 oracle_failures=[dict(what=w, family=f) for w, f in bad],
-                commits=[dict(n=c["n"], parents=c["parents"], inv=c["inv"]) for c in obs["commits"]],
-                texts=obs["texts"], check=obs["check"])
+                commits=[dict(n=c["n"], parents=c["parents"], inv=c["inv"], reported=c["reported"], tags=c["tags"])
+                         for c in obs["commits"]],
+                texts=obs["texts"], check=obs["check"],
+                checker_tie={k: v for k, v in chk.items() if k != "line"} if chk else None,
+                checker_tie_expected=chk_expected(chk) if "line" in chk else None)
